@@ -60,7 +60,10 @@ class Report:
             path = os.path.join(ROOT, "out", "replays", f"{self.pid}-{i}.json")
             with open(path, "w") as f:
                 json.dump({"property": self.pid, "key": v["key"], "what": v["what"], "replay": v["replay"]}, f, indent=1, default=str)
-            lines.append(f"VIOLATION property={self.pid} replay={path}")
+            if self.pid.upper().startswith("X"):
+                lines.append(f"EXTRA-DEVIATION spec={self.pid} replay={path}")
+            else:
+                lines.append(f"VIOLATION property={self.pid} replay={path}")
             lines.append(f"  key={v['key']} :: {v['what']}"[:1500])
         cov = {
             "states": self.states,
